@@ -218,7 +218,7 @@ STParts(s, cs, i) ==
       pu  == X(cs, i - 1, RefF(s.h.data, "upper"))
       pl  == X(cs, i - 1, RefF(s.h.data, "lower"))
       cl  == cs[i].c
-      pd  == X(cs, i - 1, RefF(s.name, "direction"))
+      pd  == X(cs, i - 1, RefF(s.h.top, "direction"))
       bad == hp /\ (IsNaR(pu) \/ IsNaR(pl) \/ IsNaR(pd))
       dir == IF ~hp THEN 1
              ELSE IF bad THEN 0
@@ -539,7 +539,7 @@ SeriesOf(c) ==
        [] k = "HL" -> <<Ser("HL", nm, TRUE, rv, k, c.p, Ref(""), Zero, NoH)>>
        [] k = "HLA" -> <<Ser("HLA", nm, TRUE, rv, k, 0, Ref(""), Zero, NoH)>>
        [] k = "Supertrend" ->
-            LET h == [atr |-> nm \o "_atr", hl |-> nm \o "_HL", data |-> nm \o "_data"]
+            LET h == [atr |-> nm \o "_atr", hl |-> nm \o "_HL", data |-> nm \o "_data", top |-> nm]
             IN ATRSeries(h.atr, FALSE, SubRv, k, c.p)
                \o <<Ser("HLA", h.hl, FALSE, SubRv, k, 0, Ref(""), Zero, NoH),
                     Ser("STdata", h.data, FALSE, -1, k, c.p, Ref(""), <<c.m[1], c.m[2]>>, h),
